@@ -29,10 +29,12 @@ var _ storage.Store
 //@        mb.messages[k] != nil && mb.messages[k].id == k && k == strconv.Itoa(mb.messages[k].index) &&
 //@        mb.first <= mb.messages[k].index && mb.messages[k].index <= mb.last && mb.messages[k].mailbox == mb.name
 
-func ghost_closed(c chan *msgDone) bool        { panic("ghost") }
-func ghost_nsent(c chan *msgDone) int          { panic("ghost") }
-func ghost_rcontent(r io.Reader) vcTok         { panic("ghost") }
-func ghost_srcContent(m storage.Message) vcTok { panic("ghost") }
+func ghost_fcalls(f func([]storage.Message) bool) int    { panic("ghost") }
+func ghost_flastRet(f func([]storage.Message) bool) bool { panic("ghost") }
+func ghost_closed(c chan *msgDone) bool                  { panic("ghost") }
+func ghost_nsent(c chan *msgDone) int                    { panic("ghost") }
+func ghost_rcontent(r io.Reader) vcTok                   { panic("ghost") }
+func ghost_srcContent(m storage.Message) vcTok           { panic("ghost") }
 
 //@ pred spec_storeOK(s *Store) bool = s.boxes != nil && s.extHost != nil && s.extHost.Events != nil &&
 //@     !ghost_closed(s.incoming) && !ghost_closed(s.remove) &&
@@ -252,6 +254,7 @@ func ghost_emitted(eb *extension.AsyncEventBroker[event.MessageMetadata]) vcSeq[
 //@   callbackinv spec_storeOK(s)
 //@   loop 1: invariant 0 <= ridx && vcFresh(boxNames) && spec_storeOK(s)
 //@   loop 2: invariant 0 <= ridx && spec_storeOK(s)
+//@   loop 2: invariant[stopsOnFalse C12] ghost_fcalls(f) == old(ghost_fcalls(f)) || ghost_flastRet(f)
 //@   serves C07 C12
 
 // ---------------------------------------------------------------------------------------------
